@@ -529,10 +529,10 @@ func genField2(rng *Rng, n int, exact bool) *sk.Field {
 func check(c *Ctx, r *Report) error {
 	rng := NewRng(c.Seed)
 	st := &state{r: r,
-		o3: &Cases{Kind: "oct3", Imports: imp, Type: "ocase3", Fn: "omismatches3", PerShard: 6},
-		o2: &Cases{Kind: "quad2", Imports: imp, Type: "ocase2", Fn: "omismatches2", PerShard: 12},
-		l3: &Cases{Kind: "lat3", Imports: imp, Type: "lcase3", Fn: "lmismatches3", PerShard: 500},
-		l2: &Cases{Kind: "lat2", Imports: imp, Type: "lcase2", Fn: "lmismatches2", PerShard: 500},
+		o3: &Cases{Kind: "oct3", Imports: imp, Type: "ocase3", Fn: "omismatches3", InfoFn: "oinexact3", PerShard: 6},
+		o2: &Cases{Kind: "quad2", Imports: imp, Type: "ocase2", Fn: "omismatches2", InfoFn: "oinexact2", PerShard: 12},
+		l3: &Cases{Kind: "lat3", Imports: imp, Type: "lcase3", Fn: "lmismatches3", InfoFn: "linexact3", PerShard: 500},
+		l2: &Cases{Kind: "lat2", Imports: imp, Type: "lcase2", Fn: "lmismatches2", InfoFn: "linexact2", PerShard: 500},
 	}
 	st.coqVals = TierN(c.Tier, 120000, 600000, 60000)
 
